@@ -733,6 +733,8 @@ class T:
             fn.recursive = True
         else:
             fn = self.translate(ck, m)
+        if fn.done and fn.generator and not self.in_for_iter:
+            raise Untranslatable(f"the generator {m}() is used outside `for ... in {m}()`")
         node = self.classes[ck].method(m)
         formal = [a.arg for a in node.args.args][1:] + [a.arg for a in node.args.kwonlyargs]
         defaults = {}
@@ -1468,7 +1470,6 @@ def generate(repo):
         for p in kparams:
             args.append(asZ(t.expr(ast.parse(inv[p], mode="eval").body, env)))
         call = f"(Ok ({kname} " + " ".join(args) + "))"
-        fake = ast.FunctionDef(name=m, body=asserts, args=node.args, decorator_list=[])
         text = t.block(asserts, env, Ctx(None), lambda e: call)
         t.stack.pop()
         ps = "(self : shadow) " + " ".join(f"({a} : {coq_ty(ty)})" for a, ty in fn.params)
